@@ -10,22 +10,22 @@ import (
 
 func init() {
 	register(&Property{
-		ID:  "C08",
-		Run: runC08,
+		ID:          "C08",
+		Run:         runC08,
 		Explanation: "Ownership of delivered slices: K1 in copy mode every payload is a fresh slices.Clone of the whole buffer / input slice with no other use (mode taken from the dominating test of NoCopy / Released != nil; a payload built without a mode test must be a clone); K2 under the no-copy assumption (edges contradicting it are pruned) every path from the output send to the end of the sending function passes the receive of the release signal (v1: or sets `unreleased` on a stop/cancel clause); K3 (v1) every ingest, reset and send of the buffer is dominated by a test `!unreleased` with no instruction that may set the flag in between; K4 the buffer value flows only to append/len/reslice/the output (no second reference); K5 unite never writes through a received input slice.",
-		NotDecided: []string{"what the consumer does with the slice (contract)"},
+		NotDecided:  []string{"what the consumer does with the slice (contract)"},
 	})
 	register(&Property{
-		ID:  "C09",
-		Run: runC09,
+		ID:          "C09",
+		Run:         runC09,
 		Explanation: "A slice is cut short only by timeout or end of input (structure): M1 the flush function is called only (a) under a condition implying len(B) >= JoinSize, (b) in the ticker clause under timeout-predicate == true, (c) as the deferred call of a loop function, (d,e unite) under len(item) >= JoinSize or len(item)+len(B) > JoinSize - any other call site is a premature flush; T4 the timeout predicate is time.Since(passAt) >= Timeout (or >; Now().Sub(passAt) accepted); T2 after every output send the reference time passAt is re-set before the sending path returns to the loop, and never between the decision and the send; M2 with interruptInterval == 0 the goroutine runs the loop function that has no ticker.",
-		NotDecided: []string{"the real-time clause beyond 'the comparison is against the full Timeout measured from the reset after the previous emission'"},
+		NotDecided:  []string{"the real-time clause beyond 'the comparison is against the full Timeout measured from the reset after the previous emission'"},
 	})
 	register(&Property{
-		ID:  "C10",
-		Run: runC10,
+		ID:          "C10",
+		Run:         runC10,
 		Explanation: "Bounded waiting (necessary structure only): T1 passAt is written only by the constructor, by the flush/forward functions - never on the accept path (a per-element reset postpones the flush forever under a trickle); T3 in the ticker clause the timeout-predicate true edge reaches the flush on every path; T4 predicate form (as C09); T5 the ticker period is the interruptInterval field, which the constructor computes as timeout / (100 / inaccuracy) (integer divisions) from Opts.Timeout and the normalised Opts.TimeoutInaccuracy, with errors for inaccuracy 0, divider 0 and zero period; T6 the ticker clause and the input clause are clauses of the same select.",
-		NotDecided: []string{"the bound Timeout*(1+1/floor(100/inaccuracy)) in real time"},
+		NotDecided:  []string{"the bound Timeout*(1+1/floor(100/inaccuracy)) in real time"},
 	})
 }
 
@@ -247,7 +247,6 @@ func modeName(m string) string {
 	return m
 }
 
-
 // mayWriteField: fn (transitively) contains a store to the named field.
 func (p *Prog) mayWriteField(fn *ssa.Function, field string) bool {
 	for g := range p.Reach(fn) {
@@ -261,7 +260,6 @@ func (p *Prog) mayWriteField(fn *ssa.Function, field string) bool {
 	}
 	return false
 }
-
 
 func checkK4(c *Ctx, jr *joinRoles) {
 	p := jr.p
@@ -347,10 +345,7 @@ func isStoredToField(v ssa.Value, field string) bool {
 	return n > 0
 }
 
-
 // ---------------------------------------------------------------- C09 / C10 shared
-
-
 
 func (jr *joinRoles) hasTimedLoop() bool {
 	for _, fn := range jr.loops {
@@ -364,7 +359,6 @@ func (jr *joinRoles) hasTimedLoop() bool {
 	}
 	return false
 }
-
 
 // M2: interruptInterval == 0 selects the loop function without ticker.
 func checkM2(c *Ctx, jr *joinRoles) {
@@ -488,8 +482,6 @@ func runC10(c *Ctx) {
 		checkT5(c, jr)
 	}
 }
-
-
 
 func checkT5(c *Ctx, jr *joinRoles) {
 	p := jr.p
